@@ -298,37 +298,56 @@ int main(int argc, char **argv) {
            "mutex acquire, join; for nt=2 also with the instant after every mutex release at k=1) for nt in {2,3,(4)} x frame selections; oracle: no deadlock/livelock/crash and output files byte-identical (ordered) / equal to 1e-9 "
            "relative (unordered) to the single-thread run. distinct_nontrivial = distinct (config, schedule trace) pairs";
   long long unit = 0, schedules = 0, points = 0;
-  bool stop = false;
-  for (const Cfg &c : cfgs) {
-    if (stop) break;
-    reference(c);
-    runner(c);
-    int bound = thorough && !c.ul ? (c.nt <= 2 ? 2 : 1) : 1;
-    auto on_exec = [&](const vsx::Exec &x) -> bool {
-      schedules++; points += x.npoints(); R.eval();
-      Verdict v = judge(c, x);
-      std::string cas = cfgstr(c) + ";sched=" + vsx::sched_str(x.choices);
-      if (!v.ok) {
-        if (v.key == "MACHINERY") { fprintf(stderr, "MACHINERY-ERROR %s [%s]\n", v.what.c_str(), cas.c_str()); cleanup(); exit(2); }
-        R.fail(v.key, v.what + "  [" + cas + "]", cas);
-      } else {
-        R.cls(cfgstr(c) + "|" + vsx::trace_str(x.shm));
-        if (R.samples.size() < R.max_samples && schedules % 41 == 1) R.sample(cas + " => outputs equal to the single-thread run; trace " + vsx::trace_str(x.shm, 40));
-      }
+  // Iterated bounds: pass 0 explores EVERY configuration at bound 1; pass 1 re-explores those with a bound >= 2 at their full
+  // bound, each within an equal share of the remaining time.
+  auto bound_for = [&](const Cfg &c) { return thorough && !c.ul ? (c.nt <= 2 ? 2 : 1) : 1; };
+  long long completed[3] = {0, 0, 0}, capped_above_1 = 0;
+  for (int pass = 0; pass < 2; pass++) {
+    std::vector<const Cfg *> todo;
+    for (const Cfg &c : cfgs) if (pass == 0 || bound_for(c) >= 2) todo.push_back(&c);
+    for (size_t ci = 0; ci < todo.size(); ci++) {
+      const Cfg &c = *todo[ci];
+      if (R.out_of_time()) { R.cap("time budget reached before " + cfgstr(c) + " (pass " + std::to_string(pass) + ")"); break; }
+      reference(c);
+      runner(c);
+      int bound = pass == 0 ? 1 : bound_for(c);
+      double slice_end = R.elapsed() + (R.deadline_s - R.elapsed()) / double(todo.size() - ci) * (pass == 0 ? 2.0 : 1.0);
+      bool cut = false;
+      auto on_exec = [&](const vsx::Exec &x) -> bool {
+        schedules++; points += x.npoints(); R.eval();
+        Verdict v = judge(c, x);
+        std::string cas = cfgstr(c) + ";sched=" + vsx::sched_str(x.choices);
+        if (!v.ok) {
+          if (v.key == "MACHINERY") { fprintf(stderr, "MACHINERY-ERROR %s [%s]\n", v.what.c_str(), cas.c_str()); cleanup(); exit(2); }
+          R.fail(v.key, v.what + "  [" + cas + "]", cas);
+        } else {
+          R.cls(cfgstr(c) + "|" + vsx::trace_str(x.shm));
+          if (R.samples.size() < R.max_samples && schedules % 41 == 1) R.sample(cas + " => outputs equal to the single-thread run; trace " + vsx::trace_str(x.shm, 40));
+        }
+        remove_outputs();
+        if (R.out_of_time() || R.elapsed() > slice_end) {
+          R.cap("time share used up while exploring " + cfgstr(c) + " at bound " + std::to_string(bound) + (pass ? " (bound 1 completed)" : ""));
+          cut = true;
+          return false;
+        }
+        return true;
+      };
       remove_outputs();
-      if (R.out_of_time()) { R.cap("time budget reached while exploring " + cfgstr(c)); return false; }
-      return true;
-    };
-    remove_outputs();
-    vsx::Exec root = ex.run({});
-    std::vector<vsx::Explorer::Branch> br = ex.branches(root, bound);
-    remove_outputs();
-    if (a.mine(unit++)) { vsx::Exec r2 = ex.run({}); if (!on_exec(r2)) { stop = true; break; } }
-    for (auto &bb : br) {
-      if (!a.mine(unit++)) continue;
-      if (!ex.dfs(bb.prefix, bb.cost, bound, on_exec)) { stop = true; break; }
+      vsx::Exec root = ex.run({});
+      std::vector<vsx::Explorer::Branch> br = ex.branches(root, bound);
+      remove_outputs();
+      long long base = unit;
+      unit += 1 + (long long)br.size();  // the same numbering in every shard, whatever is cut short
+      if (a.mine(base)) { vsx::Exec r2 = ex.run({}); on_exec(r2); }
+      for (size_t bi = 0; bi < br.size() && !cut; bi++) {
+        if (!a.mine(base + 1 + (long long)bi)) continue;
+        ex.dfs(br[bi].prefix, br[bi].cost, bound, on_exec);
+      }
+      if (!cut) completed[std::min(bound, 2)]++; else if (pass) capped_above_1++;
     }
   }
+  for (int b = 0; b < 3; b++) if (completed[b]) R.counters["configs_completed_at_bound_" + std::to_string(b)] = completed[b];
+  if (capped_above_1) R.counters["configs_capped_above_bound_1"] = capped_above_1;
   cleanup();
   R.states = points; R.transitions = points; R.traces = schedules;
   R.counters["schedules"] = schedules;
